@@ -37,8 +37,9 @@ type messageInfo struct {
 	flags        string
 	internalDate time.Time
 	seqNum       int
-	maxSeq       int   // highest sequence number of the mailbox ('*' in a sequence set)
-	maxUID       int64 // highest UID of the mailbox ('*' in a UID set)
+	maxSeq       int    // highest sequence number of the mailbox ('*' in a sequence set)
+	maxUID       int64  // highest UID of the mailbox ('*' in a UID set)
+	readErr      *error // where a key that could not read the message's content leaves the error (nil: nowhere)
 }
 
 func HandleSearch(deps ServerDeps, conn net.Conn, tag string, parts []string, state *models.ClientState) {
@@ -132,10 +133,15 @@ func EvaluateSearch(deps ServerDeps, targetDB *sql.DB, mailboxID int64, criteria
 	}
 	var seqs []int
 	var uids []int64
+	var readErr error
 	for _, msg := range messages {
+		msg.readErr = &readErr
 		if matchesSearchCriteria(msg, tokens, charset, targetDB, deps) {
 			seqs = append(seqs, msg.seqNum)
 			uids = append(uids, msg.uid)
+		}
+		if readErr != nil {
+			return nil, nil, readErr
 		}
 	}
 	return seqs, uids, nil
@@ -637,14 +643,25 @@ func matchesUIDSet(uid int, set string, max int) bool {
 	return matchesSequenceSet(uid, set, max)
 }
 
-func matchesHeaderOrBody(msg messageInfo, field string, searchStr string, charset string, targetDB *sql.DB, deps ServerDeps) bool {
-	// Get shared database for blob access
-	sharedDB := deps.GetSharedDB()
-	s3Storage := deps.GetS3Storage()
-
-	// Reconstruct message to search in headers/body
-	rawMsg, err := parser.ReconstructMessageWithSharedDBAndS3(sharedDB, targetDB, msg.messageID, s3Storage)
+// reconstructForSearch returns the text of a message for the keys that look into it. Content that cannot be
+// read from the object store is recorded through msg.readErr: the search is then answered with an error
+// instead of treating the message as one that does not match
+func reconstructForSearch(msg messageInfo, targetDB *sql.DB, deps ServerDeps) (string, bool) {
+	rawMsg, err := parser.ReconstructMessageWithSharedDBAndS3(deps.GetSharedDB(), targetDB, msg.messageID, deps.GetS3Storage())
 	if err != nil {
+		var blobErr *parser.BlobReadError
+		if msg.readErr != nil && *msg.readErr == nil && errors.As(err, &blobErr) {
+			*msg.readErr = err
+		}
+		return "", false
+	}
+	return rawMsg, true
+}
+
+func matchesHeaderOrBody(msg messageInfo, field string, searchStr string, charset string, targetDB *sql.DB, deps ServerDeps) bool {
+	// Reconstruct message to search in headers/body
+	rawMsg, ok := reconstructForSearch(msg, targetDB, deps)
+	if !ok {
 		return false
 	}
 
@@ -681,12 +698,8 @@ func matchesHeaderOrBody(msg messageInfo, field string, searchStr string, charse
 }
 
 func matchesHeader(msg messageInfo, fieldName string, searchStr string, charset string, targetDB *sql.DB, deps ServerDeps) bool {
-	// Get shared database for blob access
-	sharedDB := deps.GetSharedDB()
-	s3Storage := deps.GetS3Storage()
-
-	rawMsg, err := parser.ReconstructMessageWithSharedDBAndS3(sharedDB, targetDB, msg.messageID, s3Storage)
-	if err != nil {
+	rawMsg, ok := reconstructForSearch(msg, targetDB, deps)
+	if !ok {
 		return false
 	}
 
@@ -753,12 +766,8 @@ func headerContains(rawMsg string, fieldName string, searchStr string) bool {
 }
 
 func matchesSize(msg messageInfo, size int, larger bool, targetDB *sql.DB, deps ServerDeps) bool {
-	// Get shared database for blob access
-	sharedDB := deps.GetSharedDB()
-	s3Storage := deps.GetS3Storage()
-
-	rawMsg, err := parser.ReconstructMessageWithSharedDBAndS3(sharedDB, targetDB, msg.messageID, s3Storage)
-	if err != nil {
+	rawMsg, ok := reconstructForSearch(msg, targetDB, deps)
+	if !ok {
 		return false
 	}
 
@@ -793,13 +802,9 @@ func matchesDate(internalDate time.Time, dateStr string, comparison string) bool
 }
 
 func matchesSentDate(msg messageInfo, dateStr string, comparison string, targetDB *sql.DB, deps ServerDeps) bool {
-	// Get shared database for blob access
-	sharedDB := deps.GetSharedDB()
-	s3Storage := deps.GetS3Storage()
-
 	// Get Date: header from message
-	rawMsg, err := parser.ReconstructMessageWithSharedDBAndS3(sharedDB, targetDB, msg.messageID, s3Storage)
-	if err != nil {
+	rawMsg, ok := reconstructForSearch(msg, targetDB, deps)
+	if !ok {
 		return false
 	}
 
